@@ -110,6 +110,39 @@ def guarded(fn, secs):
         sys.unraisablehook = oldhook
 
 
+class FakeRxSock(object):
+    ''' stands in for a bound UDP socket: recvmsg returns the prepared datagram with the ancillary data a Linux
+    socket with IP_RECVTOS / IP_PKTINFO delivers; sendmsg records '''
+    family = socket.AF_INET
+
+    def __init__(self, ua, sink=None):
+        self.ua = ua
+        self.next = None
+        self.sent = sink if sink is not None else []
+
+    def recvmsg(self, datalen, _anclen):
+        import struct
+        data, fromaddr, local = self.next
+        anc = [(socket.IPPROTO_IP, socket.IP_TOS, bytes([0])),
+               (socket.IPPROTO_IP, self.ua.IP_PKTINFO, struct.pack('@I4s4s', 1, socket.inet_aton(local), socket.inet_aton(local)))]
+        return data[:datalen], anc, 0, fromaddr
+
+    def getsockname(self):
+        return ('0.0.0.0', 4556)
+
+    def sendmsg(self, bufs, _anc=None, _flags=0, addr=None):
+        self.sent.append((addr[0] if addr else None, b''.join(bytes(b) for b in bufs)))
+
+    def setsockopt(self, *a, **k):
+        pass
+
+    def fileno(self):
+        return -1
+
+    def close(self):
+        pass
+
+
 class Rig(object):
     def __init__(self):
         boot.boot()
@@ -241,19 +274,41 @@ class Rig(object):
         finally:
             self.ua.Conversation.make_local_socket = orig
 
-    def recv(self, dgrams, reject=False):
+    def deliver(self, ag, via, addr, port, data, sock=None, plain_sock=None):
+        ''' hand one datagram to the agent: directly to `_recv_datagram`, through the socket callback
+        `_sock_recvfrom` (a recording socket that returns the datagram from recvmsg), or through the DTLS
+        plaintext callback `_dtlsconn_recv` → 'done' | 'raised:<class>' | 'hang' | 'stopped-listening' '''
+        import struct
+        ua = self.ua
+
+        def go():
+            if via == 'sock':
+                lsock = plain_sock if plain_sock is not None else FakeRxSock(ua)
+                lsock.next = (data, (addr, port), '10.0.0.1')
+                return ag._sock_recvfrom(lsock)
+            conv = ua.Conversation(family=socket.AF_INET, peer_address=ipaddress.ip_address(addr), peer_port=port)
+            if via == 'dtls':
+                class Conn(object):
+                    def read(self, _n):
+                        return data
+                return ag._dtlsconn_recv(None, None, Conn(), conv)
+            ag._recv_datagram(sock, data, conv)
+            return True
+        try:
+            keep = guarded(go, 3.0)
+        except Hang:
+            return 'hang'
+        except Exception as err:   # noqa: escaped exception class is the observable
+            return 'raised:' + type(err).__name__
+        return 'done' if keep else 'stopped-listening'
+
+    def recv(self, dgrams, reject=False, via='direct'):
         ''' → (outcomes, queue-size snapshots, final queue [{id,addr,port,len,hex}]) '''
         ag = self.agent(None, require_tls=reject)
         sock = object() if reject else None
         outs, snaps = [], []
         for d in dgrams:
-            conv = self.ua.Conversation(family=socket.AF_INET, peer_address=ipaddress.ip_address(d['addr']),
-                                        peer_port=d['port'])
-            try:
-                ag._recv_datagram(sock, bytes.fromhex(d['hex']), conv)
-                outs.append('done')
-            except Exception as err:   # noqa: escaped exception class is the observable
-                outs.append('raised:' + type(err).__name__)
+            outs.append(self.deliver(ag, 'direct' if reject else via, d['addr'], d['port'], bytes.fromhex(d['hex']), sock=sock))
             snaps.append(len(ag.recv_bundle_get_queue()))
         sigs = {}
         for (_p, name, _sig, args) in ag._verif_signals:
@@ -722,7 +777,9 @@ def malformed_scenarios(chk):
 def run_recv(chk, rig, scs, label):
     reqs, obs = [], []
     for sc in scs:
-        outs, snaps, queue, pending = rig.recv(sc['dgrams'], sc.get('reject', False))
+        via = sc.get('via') or ('direct' if label != 'reasm' else ['direct', 'sock', 'dtls', 'sock'][len(reqs) % 4])
+        sc['via'] = via
+        outs, snaps, queue, pending = rig.recv(sc['dgrams'], sc.get('reject', False), via)
         reqs.append({'op': 'udpcl.recv', 'reject': sc.get('reject', False), 'dgrams': sc['dgrams']})
         obs.append((outs, snaps, queue, pending))
     answers = chk.driver(reqs) if reqs else []
@@ -749,6 +806,12 @@ def run_recv(chk, rig, scs, label):
                 [(q['id'], q['addr'], q['port'], q['len'], q['hex'][:40]) for q in ans.get('queue', [])]), sc)
         elif ans.get('pending') != pending:
             chk.corr_break('number of partial transfers differs: impl %d model %s' % (pending, ans.get('pending')), sc)
+        if 'hang' in outs:
+            chk.violation('C13:rx-hang', 'the receive callback does not return for datagram %d (%s path); CPU-time guard fired'
+                          % (outs.index('hang'), sc.get('via')), sc)
+        if 'stopped-listening' in outs:
+            chk.violation('C13:rx-callback-stops-listening', 'the %s receive callback returned a false value: the io watch is dropped and '
+                          'later datagrams are never read' % sc.get('via'), sc)
         for sig, what in recv_monitors(sc, outs, snaps, queue):
             chk.violation(sig, what, sc)
 
@@ -824,12 +887,16 @@ def rx_queue_histories(rng, tier):
             idx += n
         phases[-1]['pop'] = 'all'
         hs.append({'kind': 'rxq', 'phases': phases})
+    for k, h in enumerate(hs):
+        h['via'] = ['direct', 'sock', 'dtls'][k % 3]     # how a datagram enters the agent
+        h['pop_file'] = k % 2 == 1                       # every second pop through recv_bundle_pop_file
     return hs
 
 
 def run_rx_queue_history(rig, hist, rng):
     ''' drive one history on a real Agent → (trace for the model, [(short signature, what)]) '''
     ag = rig.agent(None)
+    lsock = FakeRxSock(rig.ua)
     ref = Ref()
     bad, trace = [], []
     announced = []        # (bid string, peer, data) in announcement order, from signals × reference
@@ -846,13 +913,13 @@ def run_rx_queue_history(rig, hist, rng):
 
     for phase in hist['phases']:
         for d in phase['dgrams']:
-            conv = rig.ua.Conversation(family=socket.AF_INET, peer_address=ipaddress.ip_address(d['addr']), peer_port=d['port'])
-            try:
-                ag._recv_datagram(None, bytes.fromhex(d['hex']), conv)
-                oc = 'done'
-            except Exception as err:   # noqa
-                oc = 'raised:' + type(err).__name__
-                note('rx-exception', '_recv_datagram raised %s on a well-formed datagram' % type(err).__name__)
+            oc = rig.deliver(ag, hist.get('via', 'direct'), d['addr'], d['port'], bytes.fromhex(d['hex']), plain_sock=lsock)
+            if oc == 'hang':
+                note('rx-hang', 'the %s receive callback does not return (CPU-time guard fired)' % hist.get('via', 'direct'))
+            elif oc == 'stopped-listening':
+                note('rx-callback-stops-listening', 'the %s receive callback returned a false value' % hist.get('via'))
+            elif oc != 'done':
+                note('rx-exception', 'the %s receive path raised %s on a well-formed datagram' % (hist.get('via', 'direct'), oc[7:]))
             for m in d['msgs']:
                 if m[0] == 'bundle':
                     ref.bundle((d['addr'], d['port']), bytes.fromhex(m[1]))
@@ -894,7 +961,21 @@ def run_rx_queue_history(rig, hist, rng):
         for bid in todo:
             exp = [a for a in announced if a[0] == bid]
             try:
-                got = bytes(ag.recv_bundle_pop_data(bid))
+                if hist.get('pop_file') and len(popped) % 2 == 1:
+                    # recv_bundle_pop_file: the same pop, the data goes to a file
+                    import os
+                    import tempfile
+                    fd, path = tempfile.mkstemp(prefix='verif_pop_')
+                    os.close(fd)
+                    try:
+                        ag.recv_bundle_pop_file(bid, path)
+                        import gc
+                        gc.collect()
+                        got = open(path, 'rb').read()
+                    finally:
+                        os.unlink(path)
+                else:
+                    got = bytes(ag.recv_bundle_pop_data(bid))
                 trace.append({'pop': bid, 'result': got.hex()})
                 if not exp:
                     note('rx-queue-mismatch', 'the queue listed id %r that was never announced' % bid)
@@ -1036,8 +1117,33 @@ def run_tx_queue_history(rig, hist):
     def note(sig, what):
         if not any(b[0] == sig for b in bad):
             bad.append((sig, what))
+
+    import dbus.service
+    fincount = {}
+
+    class _TooMany(Exception):
+        pass
+
+    def hook(_obj, name, _sig, args):
+        # a pacing loop that announces the same transfer again and again would never return
+        if name == 'send_bundle_finished':
+            fincount[str(args[0])] = fincount.get(str(args[0]), 0) + 1
+            if fincount[str(args[0])] >= 3:
+                raise _TooMany()
+    dbus.service.HOOKS.append(hook)
     try:
         ids, datas = [], {}
+        rx_ids = []
+        if hist.get('rx_first'):
+            # the peers have been heard from on a listening socket: sending to them reuses that socket
+            lsock = FakeRxSock(rig.ua, wire)
+            for peer in sorted(set(p for (p, _n) in items)):
+                oc = rig.deliver(ag, 'sock', '10.0.0.%d' % (11 + peer), 4556, _rxq_bundle(900 + peer, 5), plain_sock=lsock)
+                if oc != 'done':
+                    note('rx-exception', 'the socket receive path ended with %s' % oc)
+            rx_ids = [str(x) for x in ag.recv_bundle_get_queue()]
+            if ag.is_transfer_idle():
+                note('idle-indication-wrong', 'is_transfer_idle() is true while received bundles %s are queued' % rx_ids)
         for k, (peer, n) in enumerate(items):
             data = bytes([0x9f]) + bytes(((k * 29 + i * 7) % 250) + 1 for i in range(n - 1)) if n else b''
             try:
@@ -1047,21 +1153,35 @@ def run_tx_queue_history(rig, hist):
                 continue
             ids.append(bid)
             datas[bid] = (peer, data)
-        steps, quiet = 0, False
-        while steps < 4000:
-            idle, tmo = loop.pending('idle'), loop.pending('timeout')
-            if not idle and not tmo:
-                quiet = True
-                break
-            for src in idle:
-                loop.fire(src)
-                steps += 1
-            clock.ns += 50 * 10 ** 6
-            loop.now += 50
-            for src in loop.pending('timeout'):
-                loop.fire(src)
-                steps += 1
+            if ag.is_transfer_idle():
+                note('idle-indication-wrong', 'is_transfer_idle() is true right after send_bundle_data returned %s (the transfer is queued)' % bid)
+        if not all(b.isdigit() for b in ids):
+            note('tx-id-wrong', 'send_bundle_data returned %s: not the decimal transfer ids' % ids)
+            return [], {}, {}, bad
+        state = {'steps': 0, 'quiet': False}
+
+        def drive():
+            while state['steps'] < 4000:
+                idle, tmo = loop.pending('idle'), loop.pending('timeout')
+                if not idle and not tmo:
+                    state['quiet'] = True
+                    break
+                for src in idle:
+                    loop.fire(src)
+                    state['steps'] += 1
+                clock.ns += 50 * 10 ** 6
+                loop.now += 50
+                for src in loop.pending('timeout'):
+                    loop.fire(src)
+                    state['steps'] += 1
+        try:
+            guarded(drive, 10.0)
+        except Hang:
+            note('tx-callback-hangs', 'a send-queue callback does not return (CPU-time guard fired after %d callbacks)' % state['steps'])
+        steps, quiet = state['steps'], state['quiet']
         for (src, err) in loop.escaped:
+            if isinstance(err, _TooMany):
+                continue
             note('tx-callback-escape-%s' % type(err).__name__, '%s raised %s: %s' % (src, type(err).__name__, str(err)[:120]))
         sig = [(name, tuple(args)) for (_p, name, _s, args) in ag._verif_signals if name.startswith('send_bundle')]
         obs = {}
@@ -1112,8 +1232,20 @@ def run_tx_queue_history(rig, hist):
         for addr, p0 in ptr.items():
             if p0 != len([1 for (a, _d) in wire if a == addr]):
                 note('tx-unexpected-datagram', 'datagrams to %s that belong to no finished transfer' % addr)
+        # the idle indication: false while received bundles are queued, true once everything has drained
+        if quiet and all(len(obs[b]['finished']) == 1 for b in ids):
+            if rx_ids and ag.is_transfer_idle():
+                note('idle-indication-wrong', 'is_transfer_idle() is true while received bundles %s are queued' % rx_ids)
+            for rb in rx_ids:
+                try:
+                    ag.recv_bundle_pop_data(rb)
+                except Exception as err:   # noqa
+                    note('rx-pop-fails', 'recv_bundle_pop_data(%r) raised %s' % (rb, type(err).__name__))
+            if not ag.is_transfer_idle():
+                note('idle-indication-wrong', 'is_transfer_idle() is false although every transfer is finished, nothing is pending and the receive queue is empty')
         return ids, datas, obs, bad
     finally:
+        dbus.service.HOOKS.remove(hook)
         rig.ua.Conversation.make_local_socket = orig_sock
         rig.ua.time = orig_time
         loop.reset()
@@ -1126,8 +1258,8 @@ def tx_queue_cases(chk, rng, tier, prefix):
     behind it, no exception escapes a callback, what goes out is right. Returns [(signature, what, replay)]. '''
     rig = Rig()
     out, reqs, keep = [], [], []
-    for (mtu, items) in tx_queue_histories(rng, tier):
-        hist = {'kind': 'txq', 'mtu': mtu, 'items': [list(x) for x in items]}
+    for k, (mtu, items) in enumerate(tx_queue_histories(rng, tier)):
+        hist = {'kind': 'txq', 'mtu': mtu, 'items': [list(x) for x in items], 'rx_first': k % 2 == 1}
         ids, datas, obs, bad = run_tx_queue_history(rig, hist)
         chk.case({'txq': hist['items'], 'mtu': mtu}, nontrivial=True, sample=(mtu is not None and mtu < 14 and len(items) > 1))
         chk.cov['traces_validated_against_impl'] += 1
@@ -1210,7 +1342,7 @@ def dbus_view_histories(rng, tier):
         mtu = rng.choice([None, 10, 30, 576])
         evs, nb = [], 0
         for _e in range(rng.randrange(4, 14)):
-            k = rng.choice(['dgram', 'dgram', 'pop', 'queue', 'send', 'drain'])
+            k = rng.choice(['dgram', 'dgram', 'pop', 'queue', 'send', 'drain', 'idle'])
             if k == 'dgram':
                 peer = rng.choice(PEERS)
                 raw = b''
@@ -1227,12 +1359,14 @@ def dbus_view_histories(rng, tier):
                 evs.append({'pop': rng.randrange(0, max(1, nb + 1))})
             elif k == 'queue':
                 evs.append({'queue': True})
+            elif k == 'idle':
+                evs.append({'idle': True})
             elif k == 'send':
                 evs.append({'send': bytes(rng.randrange(1, 255) for _x in range(rng.choice([0, 3, 9, 12, 40, 200]))).hex()})
             else:
                 evs.append({'drain': True})
-        evs += [{'queue': True}, {'drain': True}]
-        hs.append({'kind': 'dbus', 'mtu': mtu, 'evs': evs})
+        evs += [{'queue': True}, {'idle': True}, {'drain': True}, {'idle': True}]
+        hs.append({'kind': 'dbus', 'mtu': mtu, 'evs': evs, 'via': ['direct', 'sock', 'dtls'][len(hs) % 3]})
     return hs
 
 
@@ -1242,6 +1376,7 @@ def run_dbus_history(rig, hist):
     loop = GLib.LOOP
     loop.reset()
     ag = rig.agent(hist['mtu'])
+    lsock = FakeRxSock(rig.ua)
 
     class FakeSock(object):
         def sendmsg(self, *a, **k):
@@ -1261,6 +1396,19 @@ def run_dbus_history(rig, hist):
     rig.ua.Conversation.make_local_socket = lambda _self: FakeSock()
     rig.ua.time = clock
     outs = []
+    import dbus.service
+    fincount = {}
+
+    class _TooMany(Exception):
+        pass
+
+    def hook(_obj, name, _sig, args):
+        # a pacing loop that announces the same transfer again and again would never return
+        if name == 'send_bundle_finished':
+            fincount[str(args[0])] = fincount.get(str(args[0]), 0) + 1
+            if fincount[str(args[0])] >= 3:
+                raise _TooMany()
+    dbus.service.HOOKS.append(hook)
     try:
         for ev in hist['evs']:
             n0 = len(ag._verif_signals)
@@ -1270,29 +1418,37 @@ def run_dbus_history(rig, hist):
                     res.append({'ret': 'recv_bundle_pop_data', 'val': _canon(ag.recv_bundle_pop_data(str(ev['pop'])))})
                 elif 'queue' in ev:
                     res.append({'ret': 'recv_bundle_get_queue', 'val': _canon(list(ag.recv_bundle_get_queue()))})
+                elif 'idle' in ev:
+                    res.append({'ret': 'is_transfer_idle', 'val': _canon(ag.is_transfer_idle())})
                 elif 'send' in ev:
                     res.append({'ret': 'send_bundle_data', 'val': _canon(ag.send_bundle_data(list(bytes.fromhex(ev['send'])), {'address': '10.0.0.9'}))})
                 elif 'drain' in ev:
-                    steps = 0
-                    while steps < 4000 and (loop.pending('idle') or loop.pending('timeout')):
-                        for src in loop.pending('idle'):
-                            loop.fire(src)
-                            steps += 1
-                        clock.ns += 50 * 10 ** 6
-                        for src in loop.pending('timeout'):
-                            loop.fire(src)
-                            steps += 1
+                    def drive():
+                        steps = 0
+                        while steps < 4000 and (loop.pending('idle') or loop.pending('timeout')):
+                            for src in loop.pending('idle'):
+                                loop.fire(src)
+                                steps += 1
+                            clock.ns += 50 * 10 ** 6
+                            for src in loop.pending('timeout'):
+                                loop.fire(src)
+                                steps += 1
+                    guarded(drive, 10.0)
                 else:
-                    conv = rig.ua.Conversation(family=socket.AF_INET, peer_address=ipaddress.ip_address(ev['addr']), peer_port=ev['port'])
-                    ag._recv_datagram(None, bytes.fromhex(ev['hex']), conv)
+                    oc = rig.deliver(ag, hist.get('via', 'direct'), ev['addr'], ev['port'], bytes.fromhex(ev['hex']), plain_sock=lsock)
+                    if oc != 'done':
+                        res.append({'raised': '?', 'what': oc})
+            except Hang:
+                res.append({'raised': '?', 'what': 'hang'})
             except KeyError:
                 res.append({'raised': 'recv_bundle_pop_data' if 'pop' in ev else '?', 'what': 'KeyError'})
             except Exception as err:   # noqa
                 res.append({'raised': '?', 'what': type(err).__name__})
             sigs = [{'sig': name, 'args': [_canon(a) for a in args]} for (_p, name, _s, args) in ag._verif_signals[n0:]]
             outs.append(sigs + res)
-        return outs, [type(e).__name__ for (_s, e) in loop.escaped]
+        return outs, [type(e).__name__ for (_s, e) in loop.escaped if not isinstance(e, _TooMany)]
     finally:
+        dbus.service.HOOKS.remove(hook)
         rig.ua.Conversation.make_local_socket = orig_sock
         rig.ua.time = orig_time
         loop.reset()
@@ -1418,7 +1574,7 @@ def replay(chk, path):
             print('MONITOR %s: %s' % (sig, what))
         return 1 if viol else 0
     if rep.get('kind') == 'recv':
-        outs, snaps, queue, pending = rig.recv(rep['dgrams'], rep.get('reject', False))
+        outs, snaps, queue, pending = rig.recv(rep['dgrams'], rep.get('reject', False), rep.get('via', 'direct'))
         ans = chk.driver([{'op': 'udpcl.recv', 'reject': rep.get('reject', False), 'dgrams': rep['dgrams']}])[0]
         print('datagrams: %s' % [(d['addr'], d['port'], d['hex'][:60]) for d in rep['dgrams']])
         print('observed: outcomes %s, queue sizes %s, queue %s, partial %d' % (outs, snaps, [(q['id'], q['hex'][:40]) for q in queue], pending))
